@@ -129,8 +129,8 @@ def run(ck):
     BR = ("bcc", "bcs", "beq", "bmi", "bne", "bpl", "bvc", "bvs")
     def expected_after(t, before):
         arch, stmt, v = t[0], t[1], t[2]
-        if arch != "6502":
-            return before.canon()
+        if arch != "6502" or "\n" in stmt:
+            return before.canon()           # (the multi-statement sequences use no zero-page-capable 6502 site)
         small, big = pz[stmt][0x12], pz[stmt][0x1234]
         if small.ok and big.ok and len(small.bytes) == 2 and len(big.bytes) == 3:
             # zero-page-capable site: an operand not yet known selects the absolute form of the same address
